@@ -1301,7 +1301,7 @@ func corpusFiles() map[string][]string {
 			"def t0 G 1 Ga " + hl(h("sha256", "Ga")), "build t0", "inplace t0 Gb", "build t0",
 		},
 		"fixed-hashcheckers-change-not-reverified.ops": {
-			"# FIXED (/repo 9c3fe2b): build.hashcheckers used to reach neither the rule hash nor the config hash; narrowing it must now",
+			"# FIXED (/repo 477defb): build.hashcheckers used to reach neither the rule hash nor the config hash; narrowing it must now",
 			"# invalidate outputs that verified only under a dropped algorithm (the second build re-runs and fails)",
 			"reset", def, "cache 0", dig("Fa"),
 			"def t0 F 0 Fa " + hl("sha1: "+h("sha1", "Fa")), "build t0",
